@@ -65,7 +65,9 @@ func init() {
 	versionImpl["verfull"] = func(a []string) string {
 		x, y := core.MustUnHex(a[0]), core.MustUnHex(a[1])
 		run := func(op string) bool {
-			return exec.Command("dpkg", "--compare-versions", x, op, y).Run() == nil
+			c := exec.Command("dpkg", "--compare-versions", x, op, y)
+			c.Env = core.OrigEnv
+			return c.Run() == nil
 		}
 		switch {
 		case run("lt"):
@@ -108,7 +110,9 @@ func streamDpkg(g *core.G) {
 		}
 		// dpkg is stricter than the property's grammar in places (e.g. an empty revision
 		// after '-'): only pairs that dpkg itself accepts are compared
-		if exec.Command("dpkg", "--validate-version", a).Run() != nil || exec.Command("dpkg", "--validate-version", b).Run() != nil {
+		va, vb := exec.Command("dpkg", "--validate-version", a), exec.Command("dpkg", "--validate-version", b)
+		va.Env, vb.Env = core.OrigEnv, core.OrigEnv
+		if va.Run() != nil || vb.Run() != nil {
 			continue
 		}
 		g.Emit("verfull", core.Hex(a), core.Hex(b))
